@@ -164,17 +164,17 @@ ModesDrift(e) ==
 \* ---- String() (C19) ---------------------------------------------------------
 \* e.lines: the tokenised rendering; e.dn: node count by the harness's own decoder
 RenderBad(c, e) ==
-  LET n == Len(e.lines) IN
+  \* Layer P reads the node id and the leaf value of each line only (e.ids, e.leafvals):
+  \* it does not depend on the rest of the line format
+  LET n == Len(e.ids) IN
   (IF e.pan # "" THEN {"panic"} ELSE {})
-  \cup (IF e.pan = "" /\ e.bad # 0 THEN {"unparsable"} ELSE {})
-  \cup (IF e.pan = "" /\ e.bad = 0 /\ (n # e.dn \/ {e.lines[x][2] : x \in 1..n} # 0..(e.dn - 1))
+  \cup (IF e.pan = "" /\ e.noid # 0 THEN {"line-without-node-id"} ELSE {})
+  \cup (IF e.pan = "" /\ (n # e.dn \/ {e.ids[x] : x \in 1..n} # 0..(e.dn - 1))
         THEN {"each-node-once"} ELSE {})
-  \cup (IF e.pan = "" /\ e.bad = 0 /\
-           [x \in 1..Len(SelectSeq(e.lines, LAMBDA ln : ln[5] = 1)) |-> SelectSeq(e.lines, LAMBDA ln : ln[5] = 1)[x][6]]
-             # [p \in 1..Len(c.R) |-> V(c, c.R[p])]
+  \cup (IF e.pan = "" /\ e.leafvals # [p \in 1..Len(c.R) |-> V(c, c.R[p])]
         THEN {"leaf-values"} ELSE {})
 RenderDrift(c, e) ==
-  IF e.pan = "" /\ e.bad = 0 /\ e.lines # ModelRender(c.nodes, c.o, c.vals, c.hasvals) THEN {"render"} ELSE {}
+  IF e.pan = "" /\ (e.bad # 0 \/ e.lines # ModelRender(c.nodes, c.o, c.vals, c.hasvals)) THEN {"render"} ELSE {}
 
 \* ---- Level B: the stored message = Encode(content) ------------------------------
 BMSame(m, e) ==
